@@ -17,7 +17,7 @@ for d in sorted(glob.glob("seeded/*/")):
         print(sid, "SKIPPED (thorough only)", flush=True)
         continue
     checks = meta.get("caught_by_quick_checks") or [meta["property_broken"][:3]]
-    out = subprocess.run(["tools/try_mutant.sh", os.path.abspath(d + "patch.diff"), "quick"] + checks, capture_output=True, text=True).stdout
+    out = subprocess.run(["tools/try_iso.sh", os.path.abspath(d + "patch.diff"), "quick"] + checks, capture_output=True, text=True).stdout
     res = {}
     for line in out.splitlines():
         m = re.match(r"(C\d\d) rc=(\d)", line)
